@@ -37,6 +37,16 @@ Theorem C02_partial : forall md S,
 Proof. exact C02_core. Qed.
 Print Assumptions C02_partial.
 
+(* The only ways a schema of the core fragment loses fidelity are the logged branches (cycle placeholder stored /
+   returned, depth placeholder, early return of an existing or placeholder schema, overwrite, dangling $ref). *)
+Theorem C02_loss_only_by_events : forall md S,
+  core_spec S = true ->
+  let s := parse_doc md S in
+  oof s = false -> all_present S s = true ->
+  forall n, In n (map fst S) -> ~ faithful S s n -> events s <> [].
+Proof. exact loss_only_by_events. Qed.
+Print Assumptions C02_loss_only_by_events.
+
 Theorem C02_guard_nonvacuous :
   core_spec spec_ok = true /\ events (parse_doc default_max_depth spec_ok) = []
   /\ oof (parse_doc default_max_depth spec_ok) = false /\ all_present spec_ok (parse_doc default_max_depth spec_ok) = true
